@@ -3,6 +3,7 @@ CONSTANTS
   T = 3
   Interval = 1
   MaxNow = 0
+  Deviations = {}
 INVARIANTS NoMismatch
 CONSTRAINT TConstraint
 POSTCONDITION TAccepted
